@@ -264,6 +264,12 @@ func scenario(p Params) e1.Scenario {
 				k := h.call(0, "close", 0)
 				qu.Close()
 				h.ret(k, 0, true)
+				// sends after close must fail, every one of them, and must not disturb the drain
+				for i := 0; i < 2; i++ {
+					k := h.call(0, "send", 900+i)
+					ok := qu.Send(context.Background(), 900+i)
+					h.ret(k, 0, ok)
+				}
 				for i := 0; i < p.Producers*p.Items+1; i++ {
 					k := h.call(0, "recv", 0)
 					v, ok := qu.Recv(context.Background())
@@ -324,10 +330,12 @@ func scenario(p Params) e1.Scenario {
 			k := h.call(0, "close", 0)
 			acc.Close()
 			h.ret(k, 0, true)
-			// send after close must fail
-			k = h.call(0, "send", 10*(p.Producers)+9)
-			ok := acc.Send(10*p.Producers + 9)
-			h.ret(k, 0, ok)
+			// sends after close must fail: every one of them (a first failed send must not re-open the queue)
+			for i := 0; i < 3; i++ {
+				k = h.call(0, "send", 10*(p.Producers)+7+i)
+				ok := acc.Send(10*p.Producers + 7 + i)
+				h.ret(k, 0, ok)
+			}
 			wg.Wait()
 			if p.Cancel {
 				// after a cancellation the consumer may have stopped early: drain what is left
@@ -503,7 +511,7 @@ func Run(o *core.Options) int {
 	if os.Getenv("VERIF_XVAL") != "" {
 		return e1.XVal(scs, false, 60*time.Second)
 	}
-	b.DPOR = 20 * time.Second
+	b.DPOR = 8 * time.Second
 	if o.Thorough() {
 		b.DPOR = 5 * time.Minute
 	}
